@@ -59,7 +59,7 @@ Section Ops.
   Variable c : cfg.
 
   Definition h_ops : index_ops hnsw :=
-    {| ins := insert dist ord c; rem := fun s id => remove dist ord c s id None;
+    {| ins := insert dist ord c; rem := fun s id => remove dist ord c s id None (fun _ => ord);
        getv := getvertex; items := h_items; ilen := hlen; ibytes := hbytes |}.
 
   Lemma lookup_in s id n : Inv s -> lookup_id s id = Some n <-> In (id, n) (idmap s).
@@ -132,10 +132,10 @@ Section Ops.
       pose proof (link_fold_entry lev n ll a) as EF; destruct (fold_left f ll a) as [s' ep'] end.
     simpl in EF. rewrite IH. auto.
   Qed.
-  Lemma unlink_levels_entry cnt : forall s n lev, entry (unlink_levels dist ord c s n lev cnt) = entry s.
+  Lemma unlink_levels_entry uord cnt : forall s n lev, entry (unlink_levels dist ord c uord s n lev cnt) = entry s.
   Proof.
     induction cnt as [|k IH]; intros s n lev; simpl; auto. rewrite IH.
-    generalize (ord (edges_at (vget s n) lev)). intros ll. revert s. induction ll as [|e ll IHl]; intros s; simpl; auto.
+    generalize (uord lev (edges_at (vget s n) lev)). intros ll. revert s. induction ll as [|e ll IHl]; intros s; simpl; auto.
     rewrite IHl. reflexivity.
   Qed.
 
@@ -316,14 +316,14 @@ Section Ops.
   Lemma set_entry_same s : set_entry s (entry s) = s.
   Proof. destruct s; reflexivity. Qed.
 
-  Lemma remove_absent s id choice : Inv s -> view h_ops s id = None -> remove dist ord c s id choice = (s, SNotFound).
+  Lemma remove_absent s id choice uord : Inv s -> view h_ops s id = None -> remove dist ord c s id choice uord = (s, SNotFound).
   Proof.
     intros I E. rewrite view_lookup in E by auto. unfold remove, remove_vertex.
     destruct (lookup_id s id); [discriminate|auto].
   Qed.
 
-  Lemma remove_present s id x choice : Inv s -> view h_ops s id = Some x ->
-    exists s', remove dist ord c s id choice = (s', SOk) /\ Inv s' /\ Permutation (h_items s) ((id, x) :: h_items s').
+  Lemma remove_present s id x choice uord : Inv s -> view h_ops s id = Some x ->
+    exists s', remove dist ord c s id choice uord = (s', SOk) /\ Inv s' /\ Permutation (h_items s) ((id, x) :: h_items s').
   Proof.
     intros I E. rewrite view_lookup in E by auto. unfold remove.
     destruct (remove_vertex s id) as [[s1 n]|] eqn:ER.
@@ -363,9 +363,9 @@ Section Ops.
       - destruct (B _ _ H) as (_ & _ & X). destruct (GV n0) as (_ & ->). auto.
       - intros k Hk Hd. destruct (GV k) as (G1 & G2). rewrite G1. apply C; auto. rewrite <- G2. auto.
       - rewrite <- (hsum_data s1 s2 (conj DA (conj DB (conj DC DD)))). auto. }
-    set (s3 := unlink_levels dist ord c s2 n (vlevel (vget s1 n)) (S (vlevel (vget s1 n)))).
-    pose proof (unlink_levels_data dist ord c (S (vlevel (vget s1 n))) s2 n (vlevel (vget s1 n))) as D3. fold s3 in D3.
-    pose proof (unlink_levels_entry (S (vlevel (vget s1 n))) s2 n (vlevel (vget s1 n))) as E3. fold s3 in E3.
+    set (s3 := unlink_levels dist ord c uord s2 n (vlevel (vget s1 n)) (S (vlevel (vget s1 n)))).
+    pose proof (unlink_levels_data dist ord c uord (S (vlevel (vget s1 n))) s2 n (vlevel (vget s1 n))) as D3. fold s3 in D3.
+    pose proof (unlink_levels_entry uord (S (vlevel (vget s1 n))) s2 n (vlevel (vget s1 n))) as E3. fold s3 in E3.
     exists s3. split; [reflexivity|]. split; [apply (Inv_data s2 s3 D3 E3 I2)|].
     rewrite (h_items_data s2 s3 D3), (h_items_data s1 s2 D2). unfold h_items.
     apply (Permutation_map (fun p => (fst p, (vvec (vget s (snd p)), vmeta (vget s (snd p)))))) in P. simpl in P.
